@@ -116,7 +116,7 @@ pub fn check_result(score: i32, mv: Option<Move>, depth: u8) {
         vassert!(norm(score as i64) == norm(want), "C05: reported score differs from the minimax value of the depth-limited tree");
         vassert!(mv.is_some(), "C05: no move returned although the root has legal moves");
         if let Some(m) = mv {
-            let legal = m.to < g().nmoves[0] && (m.to as usize) < br();
+            let legal = m.to < g().nmoves[0] && (m.to as usize) < br() && m == mk_move(0, m.to as usize);
             vassert!(legal, "C05: returned move is not one of the root's moves");
             if legal {
                 let cv = if m.to == 0 { -value_at(1, 1, depth - 1) } else if m.to == 1 { -value_at(2, 1, depth - 1) } else { -value_at(3, 1, depth - 1) };
